@@ -41,6 +41,15 @@ func main() {
 		for _, id := range ids {
 			fmt.Println(id, "-", rules.Registry[id].Title)
 		}
+	case "describe":
+		ids := make([]string, 0)
+		for id := range rules.Registry {
+			ids = append(ids, id)
+		}
+		sort.Strings(ids)
+		for _, id := range ids {
+			fmt.Printf("%s\t%s\n", id, rules.Registry[id].Explanation)
+		}
 	case "check":
 		if len(os.Args) < 3 {
 			usage()
